@@ -9,8 +9,18 @@ a = ap.parse_args()
 d = os.path.abspath(a.dir); meta = json.load(open(os.path.join(d, 'meta.json')))
 name = os.path.basename(d.rstrip('/')); wt = '/var/tmp/vf_seed_' + name
 checks = a.checks.split(',') if a.checks else [meta['property']]
+class _R:
+  pass
+
+
 def sh(cmd, **kw):
-  return subprocess.run(cmd, shell=True, capture_output=True, text=True, **kw)
+  # never read child output through pipes: orphaned grandchildren (e.g. llvm-symbolizer) can keep them open forever
+  import tempfile
+  with tempfile.TemporaryFile('w+') as fo, tempfile.TemporaryFile('w+') as fe:
+    p = subprocess.run(cmd, shell=True, stdout=fo, stderr=fe, stdin=subprocess.DEVNULL, **kw)
+    fo.seek(0); fe.seek(0)
+    r = _R(); r.returncode = p.returncode; r.stdout = fo.read(); r.stderr = fe.read()
+  return r
 sh('git -C /repo worktree remove --force %s; rm -rf %s' % (wt, wt))
 r = sh('git -C /repo worktree add --detach %s HEAD' % wt); assert r.returncode == 0, r.stderr
 res = dict(name=name, property=meta['property'])
